@@ -22,6 +22,7 @@ type Val struct {
 	Members []Member
 	Elems   []*Val
 	S       string // decoded string
+	Raw     string // strings: when set, the literal as written (quotes included); S is its decoded value
 	Num     string // numeral text
 	B       bool
 
@@ -34,9 +35,19 @@ type Member struct {
 	KeyPos int
 }
 
-func VObject(ms ...Member) *Val   { return &Val{K: VObj, Members: ms} }
-func VArray(es ...*Val) *Val      { return &Val{K: VArr, Elems: es} }
-func VString(s string) *Val       { return &Val{K: VStr, S: s} }
+func VObject(ms ...Member) *Val { return &Val{K: VObj, Members: ms} }
+func VArray(es ...*Val) *Val    { return &Val{K: VArr, Elems: es} }
+func VString(s string) *Val     { return &Val{K: VStr, S: s} }
+
+// VRawString is a string written exactly as lit (a JSON string literal); its value is what the
+// reference decoder makes of it.
+func VRawString(lit string) *Val {
+	d, ok := Unquote(lit)
+	if !ok {
+		panic("model.VRawString: not a string literal: " + lit)
+	}
+	return &Val{K: VStr, S: d, Raw: lit}
+}
 func VNumber(text string) *Val    { return &Val{K: VNum, Num: text} }
 func VBoolean(b bool) *Val        { return &Val{K: VBool, B: b} }
 func VNullV() *Val                { return &Val{K: VNull} }
@@ -188,6 +199,10 @@ func (r *docRenderer) val(v *Val, level int) {
 		r.ws()
 		r.sb.WriteByte(']')
 	case VStr:
+		if v.Raw != "" {
+			r.sb.WriteString(v.Raw)
+			break
+		}
 		r.sb.WriteString(QuoteAlt(v.S, r.st.Escapes))
 	case VNum:
 		r.sb.WriteString(v.Num)
